@@ -2,7 +2,7 @@
   C04 — byte-stream framing is independent of TCP segmentation and always terminates.
   Stated for the connection the state machine tracks (single-connection regime, see C12).
 -/
-import Yabgp.Lemmas.Framing
+import Yabgp.Lemmas.Norm
 
 namespace Yabgp
 open Sess
@@ -127,17 +127,6 @@ namespace Yabgp
 open Sess
 
 variable (U : Bool → Bytes → UpdClass)
-
-/-- the NOTIFICATION message with the given code, sub-code and data, as RFC 4271 §4.5 lays it out -/
-def notifWire (e sub : Nat) (d : Bytes) : Bytes :=
-  marker ++ be16 (d.length + 21) ++ be8 3 ++ (be8 e ++ be8 sub ++ d)
-
-theorem constructNotification_eq (e sub : Nat) (d : Bytes) (he : e < 256) (hs : sub < 256)
-    (hd : d.length + 21 < 65536) : constructNotification e sub d = some (notifWire e sub d) := by
-  unfold constructNotification constructHeader notifWire
-  have hl : (be8 e ++ be8 sub ++ d).length = d.length + 2 := by simp; omega
-  rw [if_pos ⟨he, hs⟩, hl, if_pos (by omega)]
-  simp [C.msgNotification]
 
 /-- what header_error does on the tracked, still open connection: exactly one NOTIFICATION with the
     Message Header Error code and the given sub-code, then the close, and the state is Idle -/
